@@ -2,6 +2,7 @@ package main
 
 import (
 	"context"
+	"encoding/json"
 	"fmt"
 	"net/http"
 	"strings"
@@ -117,7 +118,7 @@ func suiteWSAuth(tier string, r *rng) func(emit func(pureCase)) {
 				if !dr.ok {
 					impl = fmt.Sprintf("refused %d", dr.code)
 				}
-				pc := pureCase{line: "wsauth " + st, impl: impl, class: a.name + " " + impl}
+				pc := pureCase{line: "wsauth " + st, impl: impl, class: a.name + " " + impl, prop: "C17"}
 				// independent statement of the property
 				var n int
 				direct := false
@@ -150,6 +151,113 @@ func suiteWSAuth(tier string, r *rng) func(emit func(pureCase)) {
 				}
 				emit(pc)
 				serv.Stop(nil)
+			}
+		}
+		// Origin allow-list together with header authentication: a non-listed origin is refused
+		// with 403 before any service request (C17); and a header-auth resource id carrying the
+		// {cid} tag is requested under the connecting connection's own id (C10).
+		for _, oc := range []struct {
+			rid, origin string
+			refused     bool
+		}{
+			{"hauth.svc.wslogin", "http://evil.example", true}, {"hauth.svc.wslogin", "http://a.example.evil", true},
+			{"hauth.svc.wslogin", "https://a.example", true}, {"hauth.svc.wslogin", "http://A.example", false},
+			{"hauth.svc.wslogin", "-", false}, {"hauth.{cid}.wslogin", "-", false}, {"hauth.{cid}.wslogin", "http://a.example", false},
+		} {
+			m := newMockMQ()
+			cfg := server.Config{NoHTTP: true}
+			cfg.SetDefault()
+			ha, al := oc.rid, "http://a.example"
+			cfg.WSHeaderAuth, cfg.AllowOrigin = &ha, &al
+			serv, err := server.NewService(m, cfg)
+			if err != nil {
+				emit(pureCase{line: "wsauth-setup", impl: "newservice-failed", specErr: err.Error(), noModel: true, class: "error"})
+				continue
+			}
+			serv.SetLogger(&memLogger{})
+			if err := serv.Start(); err != nil {
+				emit(pureCase{line: "wsauth-setup", impl: "start-failed", specErr: err.Error(), noModel: true, class: "error"})
+				continue
+			}
+			type dialRes struct {
+				ok   bool
+				code int
+			}
+			resCh := make(chan dialRes, 1)
+			go func() {
+				hdr := http.Header{}
+				if oc.origin != "-" {
+					hdr["Origin"] = []string{oc.origin}
+				}
+				d := wstest.NewDialer(serv.GetWSHandlerFunc())
+				ctx, cancel := context.WithTimeout(context.Background(), 3*time.Second)
+				defer cancel()
+				ws, resp, err := d.DialContext(ctx, "ws://example.org/", hdr)
+				dr := dialRes{ok: err == nil}
+				if resp != nil {
+					dr.code = resp.StatusCode
+				}
+				if ws != nil {
+					ws.Close()
+				}
+				resCh <- dr
+			}()
+			var subjects []string
+			cidOK := true
+			var dr dialRes
+			got := false
+			deadline := time.Now().Add(2 * time.Second)
+			for time.Now().Before(deadline) && !got {
+				for _, rq := range m.outstanding() {
+					if strings.HasPrefix(rq.subject, "conn.") {
+						continue
+					}
+					m.take(rq.id)
+					subjects = append(subjects, rq.subject)
+					var pl struct {
+						CID string `json:"cid"`
+					}
+					json.Unmarshal(rq.payload, &pl)
+					if want := "auth." + strings.ReplaceAll(oc.rid[:strings.LastIndexByte(oc.rid, '.')], "{cid}", pl.CID) + ".wslogin"; rq.subject != want || pl.CID == "" {
+						cidOK = false
+					}
+					go rq.cb(rq.subject, []byte(`{"result":null}`), nil)
+				}
+				select {
+				case dr = <-resCh:
+					got = true
+				case <-time.After(200 * time.Microsecond):
+				}
+			}
+			if !got {
+				select {
+				case dr = <-resCh:
+				case <-time.After(4 * time.Second):
+				}
+			}
+			serv.Stop(nil)
+			impl := "upgrade"
+			if !dr.ok {
+				impl = fmt.Sprintf("refused %d", dr.code)
+			}
+			pc := pureCase{line: "wsauth-origin " + hx(oc.rid) + " " + hx(oc.origin), impl: fmt.Sprintf("%s requests=%d", impl, len(subjects)), noModel: true, class: "origin " + impl, prop: "C17"}
+			switch {
+			case oc.refused && (dr.ok || dr.code != http.StatusForbidden):
+				pc.specErr = fmt.Sprintf("upgrade from the non-listed origin %q was not refused with 403 (%s)", oc.origin, impl)
+			case oc.refused && len(subjects) > 0:
+				pc.specErr = fmt.Sprintf("the non-listed origin %q caused service request(s) %v before it was refused", oc.origin, subjects)
+			case !oc.refused && !dr.ok:
+				pc.specErr = fmt.Sprintf("upgrade from the allowed origin %q refused (%s)", oc.origin, impl)
+			case !oc.refused && len(subjects) != 1:
+				pc.specErr = fmt.Sprintf("expected exactly one header-auth request, saw %v", subjects)
+			}
+			emit(pc)
+			if !oc.refused && strings.Contains(oc.rid, "{cid}") {
+				c10 := pureCase{line: "wsauth-cid " + hx(oc.rid) + " " + hx(oc.origin), impl: strings.Join(subjects, " "), noModel: true, class: "cid", prop: "C10"}
+				if !cidOK {
+					c10.specErr = fmt.Sprintf("header-auth resource %q was requested on %v: the {cid} tag must be the connecting connection's own id towards the service", oc.rid, subjects)
+				}
+				emit(c10)
 			}
 		}
 	}
